@@ -419,6 +419,11 @@ def run(ctx: Ctx) -> None:
             else:
                 rep.ok("C11.R14", f_.qname, desc, f_.loc(lp))
     rep.floor("C11.R14", n14, 1)
+    from .c03 import store_paths_lexical as _spl
+    rep.rule("C11.R16", "as C08.R10 / C03.R8: a path object is turned into a store path by its lexical methods only (absolute / as_posix): `resolve`, `realpath`, `expanduser` ... ask the "
+                      "file system, and make the store path - and whether two paths overlap - depend on the symbolic links of the machine")
+    _n_spl = _spl(ctx, "C11.R16")
+    rep.floor("C11.R16", _n_spl, 1)
     from . import storerules as _S11
     rep.rule("C11.R15", "as C08.R13: a path is made well-formed or refused when it is made - one spelling per path, and the path without segment ('/', a prefix of every "
                         "other path) is refused by DDSPathUtils.create, i.e. before anything runs")
